@@ -5,7 +5,7 @@
  * Concrete tree SHAPE, everything else symbolic (which sources are enabled,
  * which call fails):
  *   SHAPE 0  root only          SHAPE 1  root{ a, b{ c } }
- *   SHAPE 2  root{ a{ b{ c } } }
+ *   SHAPE 2  root{ a{ b{ c } } }   SHAPE 3  root{ a }
  * All callees are contract stubs that log (kind, node) and check their
  * arguments: sqfs_xattr_writer_begin/end, fstree_get_path,
  * xattr_apply_map_file (harness w12_xattr_apply_map), selinux_relable_node,
@@ -40,6 +40,8 @@
 #endif
 #if SHAPE == 0
 #define NNODES 1
+#elif SHAPE == 3
+#define NNODES 2
 #else
 #define NNODES 4
 #endif
@@ -176,8 +178,12 @@ int canonicalize_name(char *filename)
 static void mk(node_box_t *b, node_box_t *parent, node_box_t *next,
 	       node_box_t *child, int dir, char name)
 {
-	memset(b, 0, sizeof(*b));
+	/* field by field (a memset would turn the link pointers into byte
+	 * expressions and the recursion would no longer be cut by symex);
+	 * static storage: everything else is zero */
 	b->name[0] = name;
+	b->name[1] = '\0';
+	b->n.data.children = NULL;
 	b->n.name = b->name;
 	b->n.parent = parent ? &parent->n : NULL;
 	b->n.next = next ? &next->n : NULL;
@@ -205,6 +211,9 @@ void harness(void)
 
 #if SHAPE == 0
 	mk(&g_n0, NULL, NULL, NULL, 1, '\0');
+#elif SHAPE == 3
+	mk(&g_n0, NULL, NULL, &g_n1, 1, '\0');
+	mk(&g_n1, &g_n0, NULL, NULL, 0, 'a');
 #elif SHAPE == 1
 	mk(&g_n0, NULL, NULL, &g_n1, 1, '\0');
 	mk(&g_n1, &g_n0, &g_n2, NULL, 0, 'a');
@@ -279,6 +288,6 @@ void harness(void)
 	VERIF_COVER(ret == -1 && g_nev == 1);
 	VERIF_COVER(ret == -1 && g_nev > 3 && g_log[g_nev - 1] / 8 == EV_MAP);
 #if NNODES > 1
-	VERIF_COVER(ret == -1 && g_log[g_nev - 1] == EV_END * 8 + 3);
+	VERIF_COVER(ret == -1 && g_log[g_nev - 1] == EV_END * 8 + NNODES - 1);
 #endif
 }
